@@ -62,6 +62,9 @@ func (a *RateLimitedAttester) innerVerifyRequest(tokenRequest RateLimitedTokenRe
 	}
 
 	scalarLen := (curve.Params().Params().BitSize + 7) / 8
+	if len(tokenRequest.Signature) != 2*scalarLen {
+		return fmt.Errorf("Request signature invalid")
+	}
 	r := new(big.Int).SetBytes(tokenRequest.Signature[:scalarLen])
 	s := new(big.Int).SetBytes(tokenRequest.Signature[scalarLen:])
 
@@ -90,7 +93,7 @@ func (a *RateLimitedAttester) innerVerifyRequest(tokenRequest RateLimitedTokenRe
 func (a *RateLimitedAttester) VerifyRequest(tokenRequest RateLimitedTokenRequest, blindKeyEnc, clientKeyEnc, anonymousOrigin []byte) error {
 	err := a.innerVerifyRequest(tokenRequest)
 	if err != nil {
-		return nil
+		return err
 	}
 
 	curve := elliptic.P384()
@@ -101,7 +104,7 @@ func (a *RateLimitedAttester) VerifyRequest(tokenRequest RateLimitedTokenRequest
 
 	blindKey, err := ecdsa.CreateKey(curve, blindKeyEnc)
 	if err != nil {
-		return nil
+		return err
 	}
 
 	b := cryptobyte.NewBuilder(nil)
